@@ -186,4 +186,19 @@ def run(ctx) -> None:
     hargs = [ast.unparse(x) for x in rcall.args]
     rep.check("C09.R5", len(hargs) > 3 and hargs[3] == (wrapper.params[3] if len(wrapper.params) > 3 else ""), wrapper, rcall, "the factory's exception handler reaches the runner", "the runner is called without the exception handler")
     handle_isolation(ctx, ta, "C09.R6")
+    # wait_finished() returns once the task has ended for ANY reason: the finished event is set
+    # by the runner's finally, so every way through the wrapper must go through the runner
+    rn_nodes = wcfg.nodes_containing(rcall)
+    if rn_nodes:
+        ok = wcfg.all_paths_pass(wcfg.entry, [wcfg.exit], [rn_nodes[0].id], edge_ok=lambda s_, d_, lab: lab not in ("e", "h"))
+        rep.check("C09.R6", ok, wrapper, rcall, "every path through the task wrapper runs the task runner (whose finally sets the finished event)", "the task wrapper can return without running the task runner (e.g. a fast path for already-cancelled handles): the finished event is never set and wait_finished() blocks forever")
+    for f_, sp_ in ((start_task, sp1), (start_soon, sp2)):
+        fcfg_ = a.cfg(f_)
+        spn_ = fcfg_.nodes_containing(sp_)
+        if spn_:
+            okp = fcfg_.all_paths_pass(fcfg_.entry, [fcfg_.exit], [spn_[0].id], edge_ok=lambda s_, d_, lab: lab not in ("e", "h"))
+            rep.check("C09.R6", okp, f_, sp_, f"{f_.name} always spawns the task it returns a handle for", f"{f_.name} can return a handle without spawning the task")
+    from .common import include_rules
+
+    include_rules(ctx, "c02", "C09.R1", only=("C02.R5",))
     rep.assume("anyio: a task group's `async with` exits only after all child tasks finished; cancellation is delivered only to the cancelled scope's task")
